@@ -261,6 +261,7 @@ func checkC18(c *Ctx) {
 	}
 	// references and ROOT arguments pointing directly at blobs, trees and tags of every kind
 	cs = append(cs, rootKindCases("c18")...)
+	cs = append(cs, scaleCases("c18")...)
 	with := env.parallelCLI(cs, cliOpt{Progress: true, Formats: true}, 8)
 	without := env.parallelCLI(cs, cliOpt{Progress: false, Formats: true, NoTrace: true}, 8)
 	for i := range cs {
